@@ -273,6 +273,15 @@ pub fn judge_files(spec: &Spec, cfg: &Cfg, h: &HirSpec, files: &Tree) -> Vec<Fin
         if field_names != want_fields {
             out.push(f("C05", "", format!("{}: request struct fields {:?}, inputs {:?}", rs, field_names, want_fields)));
         }
+        // each once: whatever table the extractor produced, no input may appear twice in the interface
+        {
+            let mut seen = std::collections::BTreeSet::new();
+            for n in &field_names {
+                if !seen.insert(n.clone()) {
+                    out.push(f("C05", "", format!("{}: input {} is a field of the request struct more than once", rs, n)));
+                }
+            }
+        }
         let mut setters: Vec<String> = vec![];
         let mut client_sig: Option<(Vec<(String, String)>, Option<String>)> = None;
         let mut into_future_body: Option<String> = None;
